@@ -358,6 +358,12 @@ func (c *FnCtx) onlyLocalUses(v ssa.Value, seen map[ssa.Value]bool) bool {
 						return false
 					}
 				case *ssa.DebugRef:
+				case *ssa.Store:
+					// closure kept in a local variable that is only ever called, and that only reads
+					// this captured variable: the variable stays a versioned local
+					if cr.Val != r || !closureVarOnlyCalled(cr.Addr) || !closureReadsOnly(r, v) {
+						return false
+					}
 				default:
 					return false
 				}
@@ -976,6 +982,16 @@ func (c *FnCtx) execInstr(st *State, b *ssa.BasicBlock, in ssa.Instruction) bool
 		c.vals[in] = c.execNext(st, in)
 	case *ssa.Defer:
 		c.abstracted["defer "+callName(&in.Call)]++
+		// a deferred call runs once when the function returns: call counters count it where it is deferred
+		if len(c.fc.Counters) > 0 && in.Pos().IsValid() {
+			// (only by counters that ask for it: the call prefix is written with its "defer")
+			txt := "defer" + strings.TrimPrefix(c.anchor(in), "defer")
+			for _, ct := range c.fc.Counters {
+				if want := strings.Join(strings.Fields(ct[1]), ""); strings.HasPrefix(want, "defer") && strings.HasPrefix(txt, want) {
+					st.ghostInts[ct[0]] = c.define("cnt."+ct[0], sInt, plus(st.ghostInts[ct[0]], "1"))
+				}
+			}
+		}
 	case *ssa.RunDefers:
 	case *ssa.Go:
 		c.abstracted["go "+callName(&in.Call)]++
@@ -1128,6 +1144,11 @@ func (c *FnCtx) execAlloc(st *State, in *ssa.Alloc) {
 	if types.TypeString(t, nil) == "strings.Builder" {
 		lm := c.heapGet(st, "G$sb.len", arrSort(sInt))
 		c.heapSet(st, "G$sb.len", arrSort(sInt), sto(lm, r, "0"))
+	}
+	if types.TypeString(t, nil) == "bytes.Buffer" {
+		// the zero value of a bytes.Buffer is an empty buffer
+		lm := c.heapGet(st, "G$buf.len", arrSort(sInt))
+		c.heapSet(st, "G$buf.len", arrSort(sInt), sto(lm, r, "0"))
 	}
 }
 
@@ -1815,4 +1836,83 @@ func (c *FnCtx) sortedAllocs(m map[*ssa.Alloc]bool) []*ssa.Alloc {
 	}
 	sort.Slice(out, func(i, j int) bool { return c.allocOrder[out[i]] < c.allocOrder[out[j]] })
 	return out
+}
+
+// closureVarOnlyCalled: addr is a local variable holding a closure; every load of it is used as the
+// function of a call and nothing else.
+func closureVarOnlyCalled(addr ssa.Value) bool {
+	a, ok := addr.(*ssa.Alloc)
+	if !ok || a.Referrers() == nil {
+		return false
+	}
+	for _, r := range *a.Referrers() {
+		switch r := r.(type) {
+		case *ssa.Store:
+			if r.Addr != a {
+				return false
+			}
+		case *ssa.DebugRef:
+		case *ssa.UnOp:
+			if r.Op != token.MUL || r.Referrers() == nil {
+				return false
+			}
+			for _, u := range *r.Referrers() {
+				switch u := u.(type) {
+				case *ssa.Call:
+					if u.Call.Value != r {
+						return false
+					}
+				case *ssa.DebugRef:
+				default:
+					return false
+				}
+			}
+		default:
+			return false
+		}
+	}
+	return true
+}
+
+// closureReadsOnly: inside the closure the captured variable bound to v is only loaded from
+// (directly or through field addresses); it is never stored to, passed on or captured again.
+func closureReadsOnly(mc *ssa.MakeClosure, v ssa.Value) bool {
+	fn, ok := mc.Fn.(*ssa.Function)
+	if !ok {
+		return false
+	}
+	for i, b := range mc.Bindings {
+		if b != v {
+			continue
+		}
+		if i >= len(fn.FreeVars) {
+			return false
+		}
+		var readOnly func(x ssa.Value) bool
+		readOnly = func(x ssa.Value) bool {
+			if x.Referrers() == nil {
+				return false
+			}
+			for _, r := range *x.Referrers() {
+				switch r := r.(type) {
+				case *ssa.UnOp:
+					if r.Op != token.MUL {
+						return false
+					}
+				case *ssa.FieldAddr:
+					if !readOnly(r) {
+						return false
+					}
+				case *ssa.DebugRef:
+				default:
+					return false
+				}
+			}
+			return true
+		}
+		if !readOnly(fn.FreeVars[i]) {
+			return false
+		}
+	}
+	return true
 }
